@@ -10,7 +10,8 @@ const char* opc_name[NOPC] = {"lock+rmw",  "lock+rmw+unlock()", "try_lock",  "tr
                               "try_lock_shared", "try_lock_shared_for", "try_lock_shared_until", "const lock()", "read",
                               "read(ret)", "modify_detach",     "modify_async", "exchange",   "compare_exchange", "operator T()", "try_lock else same handle=lock()",
                               "try_lock_shared else same handle=lock_shared()", "lock+rmw, then handle=other.lock() (hand-over-hand)",
-                              "lock_shared, then handle=other.lock_shared() (hand-over-hand)"};
+                              "lock_shared, then handle=other.lock_shared() (hand-over-hand)", "try_lock(_for) then unlock() on the handle, null or not",
+                              "try_lock_shared(_for) then unlock() on the handle, null or not"};
 
 // ---------------------------------------------------------------- linearizability
 static char g_linmsg[400];
@@ -160,6 +161,19 @@ void add_exclusive_ops(Instance& in, bool enabled)
         auto h = w.try_lock();
         use_exclusive(h, hi, mutex_of(&w), enabled);
     };
+    in.ops[X_TRY_UNLOCK] = [enabled](void* p, int) {
+        // unlock() is called on whatever the try form returned: on a null handle it must not touch the mutex
+        W& w = *(W*)p;
+        int hi = h_begin(X_TRY_UNLOCK);
+        auto h = [&] {
+            if constexpr (is_timed<M>::value) return w.try_lock_for(1ms);
+            else return w.try_lock();
+        }();
+        use_exclusive(h, hi, mutex_of(&w), enabled);
+        h.unlock();
+        MC_CHECK(!bool(h), "unlock-not-null", "handle still non-null after unlock()");
+        if (enabled) MC_CHECK(holds(mutex_of(&w)) == 0, "unlock-kept-lock", "lock still held by this thread after unlock()");
+    };
     in.ops[X_HANDOVER] = [enabled](void* p, int) {
         // lock coupling: the handle of this wrapper is move-assigned from a lock() of a second wrapper; the
         // assignment releases this wrapper's lock (no leaked lock: other threads must be able to go on)
@@ -252,6 +266,18 @@ void add_shared_ops(Instance& in, bool enabled)
         int hi = h_begin(S_TRY);
         auto h = w.try_lock_shared();
         use_shared(h, hi, mutex_of(&w), enabled);
+    };
+    in.ops[S_TRY_UNLOCK] = [enabled](void* p, int) {
+        const W& w = *(const W*)p;
+        int hi = h_begin(S_TRY_UNLOCK);
+        auto h = [&] {
+            if constexpr (is_timed<M>::value) return w.try_lock_shared_for(1ms);
+            else return w.try_lock_shared();
+        }();
+        use_shared(h, hi, mutex_of(&w), enabled);
+        h.unlock();
+        MC_CHECK(!bool(h), "unlock-not-null", "handle still non-null after unlock()");
+        if (enabled) MC_CHECK(holds(mutex_of(&w)) == 0, "unlock-kept-lock", "lock still held by this thread after unlock()");
     };
     in.ops[S_HANDOVER] = [enabled](void* p, int) {
         const W& w = *(const W*)p;
